@@ -91,3 +91,25 @@ CLAIMED['C14'] = dict(
     text='All-in on every street x preference vectors in {None,1,2,3} x every selection order x select-before/after-show: offering conditions, asked exactly once, consensus rule, '
          'b*r complete boards sharing exactly the pre-all-in cards, pots divided evenly over boards (odd chips to board 0), chips conserved.',
     note='concrete chips/cards in the choice family; n<=3; hold\'em/PLO only')
+CLAIMED['C11'] = dict(
+    technique=SYMEX + '; rule model parameterised by the DOCUMENTED structure; concrete variant table (supporting)',
+    text='All 12 variants: symbolic stacks/raise sizes/probe amount against the documented structure (fixed-limit: exactly the fixed size, fifth bet/raise refused also after a short all-in raise; '
+         'no-limit: up to the stack; pot-limit: up to the pot), small/big-bet streets; plus a transcribed table of deck, hand types, streets, opening, cap and PHH codes.',
+    note='documentation table transcribed by hand (harness/c11.py DOC); depth <= 2 quick')
+CLAIMED['C16'] = dict(
+    engine='symex+smt',
+    technique=CHOICE + '; z3 string theory: quoting branch of HandHistory.dumps translated from source vs TOML literal-string grammar',
+    text='11 PHH variants: from_game_state -> dumps -> loads equal, second dump identical, replay of the loaded history reproduces actions, cards, stacks, payoffs; corrupted action lines are '
+         'reported; user fields and commentary kept. For all ASCII strings of length <= 8 outside the listed F10 class the emitted TOML string denotes the original (unsat).',
+    note='chips concrete (int + one Decimal family); tomllib/TOML 1.0 grammar transcribed; known finding F10 carved out')
+CLAIMED['C17'] = dict(
+    technique=CHOICE + '; oracle from the harness\'s own tally of committed chips',
+    text='FT/NT, n=2..3, all fold/call/raise x size choices for the first decisions, voluntary mucks, every viewer seat: ACPC match states and Pluribus line equal the oracle; '
+         'the Pluribus line parses back to a history replaying to the same actions, stacks and line.',
+    note='chips/cards concrete; mucks during all-in run-outs excluded (not expressible in the protocol)')
+CLAIMED['C18'] = dict(
+    engine='symex+smt',
+    technique=SYMEX + '; real calculate_icm executed on z3 Real variables (operator overloading) and decided by z3 nlsat',
+    text='Range notation for all rank pairs/intervals vs an index-based oracle; equities of fully specified deals with symbolic strengths (incl. no-low) vs the engine share rule; '
+         'ICM: non-negative, sums to the prize pool, ordered as chips, for all positive real chips and non-increasing payouts (n<=3, partly n=4).',
+    note='sampling paths outside (random stubs); ICM over the reals; some n=3/4 order obligations may be inconclusive (reported)')
